@@ -220,6 +220,25 @@ where
     D: Decoder<Error = Status> + Send + 'static,
     D::Item: 'static,
 {
+    decode_run_opts(decoder, steps, dir, enc, limit, extra, eager_end, want_trailers, false)
+}
+
+#[allow(clippy::too_many_arguments)]
+pub fn decode_run_opts<D>(
+    decoder: D,
+    steps: Vec<BStep>,
+    dir: Dir,
+    enc: Enc,
+    limit: Option<usize>,
+    extra: usize,
+    eager_end: bool,
+    want_trailers: bool,
+    unfused: bool,
+) -> DecOut<D::Item>
+where
+    D: Decoder<Error = Status> + Send + 'static,
+    D::Item: 'static,
+{
     let nsteps = steps.len();
     let total_bytes: usize = steps
         .iter()
@@ -227,6 +246,7 @@ where
         .sum();
     let (mut body, bstats) = ScriptBody::new(steps);
     body.eager_end = eager_end;
+    body.continue_after_err = unfused;
     let mut st: Streaming<D::Item> = match dir {
         Dir::Request => Streaming::new_request(decoder, body, enc.tonic(), limit),
         Dir::Response(code) => Streaming::new_response(
@@ -301,4 +321,43 @@ where
 
 pub fn status_brief(s: &Status) -> String {
     format!("{:?}:{}", s.code(), s.message())
+}
+
+/// Drain any http body with the counting executor: (data bytes, data frame sizes, trailers).
+pub fn drain_body<B>(body: B, ex: &mut Exec) -> Result<(Vec<u8>, Vec<usize>, Option<HeaderMap>), String>
+where
+    B: Body,
+    B::Data: bytes::Buf,
+    B::Error: std::fmt::Debug,
+{
+    use bytes::Buf;
+    let mut body = Box::pin(body);
+    let mut data = Vec::new();
+    let mut sizes = Vec::new();
+    let mut trailers: Option<HeaderMap> = None;
+    for _ in 0..100_000 {
+        match ex.drive(100_000, |cx| body.as_mut().poll_frame(cx)) {
+            Out::Done(Some(Ok(f))) => {
+                if trailers.is_some() {
+                    return Err("frame after trailers".into());
+                }
+                if f.is_data() {
+                    let mut d = f.into_data().ok().unwrap();
+                    sizes.push(d.remaining());
+                    while d.has_remaining() {
+                        let c = d.chunk().to_vec();
+                        d.advance(c.len());
+                        data.extend_from_slice(&c);
+                    }
+                } else if let Ok(t) = f.into_trailers() {
+                    trailers = Some(t);
+                }
+            }
+            Out::Done(Some(Err(e))) => return Err(format!("body error: {:?}", e)),
+            Out::Done(None) => return Ok((data, sizes, trailers)),
+            Out::Stalled => return Err("body stalled (Pending without wake-up)".into()),
+            Out::Budget => return Err("body poll budget exhausted".into()),
+        }
+    }
+    Err("body never ended".into())
 }
